@@ -127,6 +127,12 @@ pub fn check(rep: &mut Report) {
             }
         }
     }
+    // against the polymorphic literal `0` (what library code like `if x > 0` does)
+    for ua in defs.units.keys() {
+        for x in &mags {
+            cases.push((format!("({x} * {ua})"), "0".to_string(), is_nan_mag(x)));
+        }
+    }
     if rep.tier == Tier::Thorough {
         // cross magnitudes and prefixed operands
         for (ua, ub) in &pairs {
@@ -179,6 +185,13 @@ pub fn check(rep: &mut Report) {
                     rep.violation(
                         format!("input:{} ? {}", o.a, o.b),
                         format!("comparison of {} and {} panicked: {e}", o.a, o.b),
+                        json!({"a": o.a, "b": o.b}),
+                    );
+                } else if e.contains("Conversion error") || e.contains("runtime") {
+                    // the comparison type-checks but fails at run time: no boolean at all
+                    rep.violation(
+                        format!("input:{} ? {}", o.a, o.b),
+                        format!("comparing {} with {} fails at run time: {e}", o.a, o.b),
                         json!({"a": o.a, "b": o.b}),
                     );
                 } else {
